@@ -252,6 +252,6 @@ Theorem value_roundtrip_top : forall v, wf v -> vdepth v <= PARSER_MAX_DEPTH ->
   parse_tokens (print_value v) = POk (ast_of v) [].
 Proof.
   intros v Hw Hd. unfold parse_tokens.
-  pose proof (value_roundtrip v Hw (2 + length (print_value v))%nat 0 [] ltac:(lia) ltac:(lia)) as H.
+  pose proof (value_roundtrip v Hw (3 * length (print_value v) + 3)%nat 0 [] ltac:(lia) ltac:(lia)) as H.
   rewrite app_nil_r in H. exact H.
 Qed.
